@@ -165,6 +165,11 @@ func GenCells(rt *rapid.T, tok byte, n int, small bool) (rc.Fmt, []rc.Cell, []va
 		}
 		c := ColFor(rt, tok, v)
 		cell := rc.Cell{V: v.V}
+		if c.Status&rc.ColumnStatus != 0 {
+			// the format announces a status byte in front of each value: any bits (0x01 is the
+			// NULL bit; the value's length and data follow all the same)
+			cell.DStatus = uint8(rapid.SampledFrom([]int{0, 0, 1, 1, 2, 3, 0x80, 0xff}).Draw(rt, "datastatus"))
+		}
 		if isTxtPtr(tw.T) {
 			cell.TxtPtr = rapid.SliceOfN(rapid.Byte(), 0, 16).Draw(rt, "txtptr")
 			cell.TS = rapid.SliceOfN(rapid.Byte(), 8, 8).Draw(rt, "ts")
@@ -489,6 +494,9 @@ func CellFor(rt *rapid.T, c rc.Col) rc.Cell {
 	}
 	v := valgen.GenFor(rt, tw, int(c.Prec), int(c.Scale), maxLen)
 	cell := rc.Cell{V: v.V}
+	if c.Status&rc.ColumnStatus != 0 {
+		cell.DStatus = uint8(rapid.SampledFrom([]int{0, 0, 1, 1, 2, 3, 0x80, 0xff}).Draw(rt, "datastatus"))
+	}
 	if isTxtPtr(c.T) {
 		cell.TxtPtr = rapid.SliceOfN(rapid.Byte(), 0, 16).Draw(rt, "txtptr")
 		cell.TS = rapid.SliceOfN(rapid.Byte(), 8, 8).Draw(rt, "ts")
